@@ -194,6 +194,8 @@ pub fn dispatch(a: &Args) -> Option<(Acc, RunMeta)> {
             let mut acc = engine::run(&spec(a, "c12-typed", a.n(1800, 18000), (8, 25), Domain::typed(), cfg_any, true, None));
             acc.merge(engine::run(&spec(a, "c12-untyped", a.n(1800, 18000), (10, 25), du.clone(), cfg_any, true, None)));
             acc.merge(engine::run(&spec(a, "c12-ovl", a.n(1200, 12000), (10, 25), du, cfg_overlay_top, true, None)));
+            // errors on directory contents the path API did not create (symlinks to directories / files, dangling links)
+            acc.merge(par_run(a, "c13-hostile-dir", a.n(1500, 15000), c13::hostile_dir_case));
             Some((acc, meta(a, "every Err returned by any operation or observer of typed/untyped histories on all configurations (adapter stackings to depth 3) is checked: label not the placeholder, label related to the call path/destination, kind rules (missing entry -> NotFound, occupied create_dir -> File/DirectoryExists, NotSupported); distinct = distinct observable states", ENGINE_ASSUMPTIONS)))
         }
         "C02" => {
